@@ -46,7 +46,7 @@ def _draw_geom(rng, dim, hostile):
 
 def generate(tier, seed):
     rng = np.random.default_rng([seed, 12])
-    n = {"quick": 1, "thorough": 12}[tier]
+    n = {"quick": 1, "thorough": 80}[tier]
     cases = []
     for rep in range(60 * n):
         for dim in (1, 2, 3, 4):
